@@ -427,10 +427,10 @@ fn avrod_first_cut_in_row(alg: &str, data: &[u8], cuts: &[usize]) -> Option<&'st
                 return Some(kind);
             }
             // exactly between two fields of one row (after the id, before the string length)
-            if c == a && i > 0 && regions[i - 1].1 == a && regions[i - 1].2 == "varint" && kind == "varint" && c < data.len() {
+            if c == a && i > 0 && regions[i - 1].1 == a && regions[i - 1].2 == "varint" && kind == "varint" && (c < data.len() || b > data.len()) {
                 return Some("varint");
             }
-            if c == a && i > 0 && regions[i - 1].1 == a && kind == "payload" && b > a && c < data.len() {
+            if c == a && i > 0 && regions[i - 1].1 == a && kind == "payload" && b > a && (c < data.len() || b > data.len()) {
                 return Some("payload");
             }
         }
